@@ -24,17 +24,20 @@ PROPS = {
         rule="generated records (channel 0..65535 incl. boundaries, lengths 0..600 (thorough: up to 70000), signed/unsigned, extreme "
              "frames/times (0, +-2^63, -1, random), arbitrary float32/float64 bit patterns incl. NaN/Inf, 0..40 coefficients); the real "
              "messageRecords/messageSummaries bytes are decoded by the doc-derived Lean decoder and compared with the record, and "
-             "compared byte-for-byte with the model encoder. Non-trivial = every case (each decodes a full message); distinct by input line.",
+             "compared byte-for-byte with the model encoder; in addition batches of 1..4 records go through the REAL publisher goroutine "
+             "(startSocket, pulse port and summary port) and a ZMQ SUB socket must receive exactly one two-part message per record, in order, "
+             "equal to that record's header and payload. Non-trivial = every case (each decodes a full message); distinct by input line.",
         nontrivial=[],
         jobs=seeds(1, 4),
         trusted_base=["float32()/float64 conversions and bit patterns are taken from Go's math package (opaque bit strings in the model)",
-                      "ZeroMQ framing (two-part message) is not modelled"],
+                      "ZeroMQ itself (libzmq delivery of multipart messages over local TCP) is trusted; what dastard hands to it is observed by a subscriber"],
         assumptions=["records reach messageRecords/messageSummaries unchanged from the publisher (pipeline covered by C01)"],
     ),
     "C18": dict(
         rule="real RingBuffer on POSIX shared memory (writer handle + reader handle), buffer sizes {2,3,4,5,7,8,16,17,64,100,255,256} and "
              "random 2..4096, histories of 1..40 ops Write/Read/ReadMultipleOf/ReadAll/DiscardStride with exact-fill, over-fill, exact-empty, "
-             "negative and over-capacity read sizes; 8% of histories may contain rewinding discards (the known finding). Chunk size / stride 0 "
+             "negative and over-capacity read sizes; 8% of histories may contain rewinding discards (the known finding); a panic inside an "
+             "operation is an observed output; after every discard BytesReadable tells where the real read position landed. Chunk size / stride 0 "
              "is excluded (the Go code divides by zero: outside the statement's domain). Non-trivial = the logical stream wrapped around the "
              "end of the buffer at least once; distinct by input line.",
         nontrivial=["wrap"],
